@@ -9,6 +9,7 @@ TIMEOUT_MS = int(os.environ.get('PYVC_TIMEOUT_MS', '45000'))
 
 FAST_RLIMIT = int(os.environ.get('PYVC_FAST_RLIMIT', '3000000'))
 MBQI_TIMEOUT_MS = int(os.environ.get('PYVC_MBQI_TIMEOUT_MS', '30000'))
+SHORT_PLAN = False
 COVER_TIMEOUT_MS = int(os.environ.get('PYVC_COVER_TIMEOUT_MS', '15000'))      # vacuity (reachability) queries: 'unknown' is tolerated, only 'unsat' is an error
 EMATCH_RLIMIT = int(os.environ.get('PYVC_EMATCH_RLIMIT', '8000000'))
 
@@ -30,6 +31,8 @@ def _solve(i, rlimit=None):
         plan = [(2, 0, COVER_TIMEOUT_MS if vc.expect == 'sat' else (MBQI_TIMEOUT_MS if quant else TIMEOUT_MS))]
     elif rlimit:      # fast pass: bounded by the resource limit
         plan = ([(0, 0, TIMEOUT_MS)] if vc.drop else []) + [(1, 0, TIMEOUT_MS), (2, 0, MBQI_TIMEOUT_MS)]
+    elif SHORT_PLAN:      # seeded-edit runs (thorough tier): the obligations that matter are expected to fail, so no restarts
+        plan = ([(0, 0, 15000)] if vc.drop else []) + [(1, 0, 20000), (2, 0, MBQI_TIMEOUT_MS)]
     else:
         plan = ([(0, 0, 15000)] if vc.drop else []) + [(1, 0, 20000)] + ([(0, 11, 15000)] if vc.drop else []) + [(1, 11, 20000), (1, 5, TIMEOUT_MS), (2, 0, MBQI_TIMEOUT_MS)]
     for attempt, seed, tmo in plan:
